@@ -332,7 +332,14 @@ def gen_block_prefix_edit(rng, doc, texts):
     word = WordSource(rng)
     pvs = [ParaView(si, pi, p) for pi, (si, p) in enumerate(sem.all_paragraphs(doc))]
     body = sem.body_story_index(doc)
-    firsts = [pv for pv in pvs if pv.si == body][:1] if body > 0 else []
+    # the first paragraph of every story that follows another story in the text (a second header, the body behind a
+    # header, a footer): the preceding run then belongs to a different story - of the same kind or not
+    firsts = []
+    for si in sorted({pv.si for pv in pvs if pv.si > 0}):
+        firsts.append(next(pv for pv in pvs if pv.si == si))
+    if len(firsts) > 1:
+        k = rng.randrange(len(firsts))
+        firsts = [firsts[k]] + firsts[:k] + firsts[k + 1:]
     rng.shuffle(pvs)
     for pv in firsts + pvs[:4]:
         acc = pv.acc
